@@ -9,69 +9,71 @@ import Dbus.Proofs.Bus.Monitors
 namespace Dbus.Proofs.Bus
 open Dbus Dbus.Spec Dbus.Model Dbus.Model.Bus
 
+variable {k : Option ConnId}
+
 /-! ### tools -/
 
-theorem shadow_foldl {α : Type} (f : Tx → α → Tx) (hf : ∀ t t' a, Shadow t t' → Shadow (f t a) (f t' a)) :
-    ∀ (l : List α) {t t' : Tx}, Shadow t t' → Shadow (l.foldl f t) (l.foldl f t')
+theorem shadow_foldl {α : Type} (f : Tx → α → Tx) (hf : ∀ t t' a, Shadow k t t' → Shadow k (f t a) (f t' a)) :
+    ∀ (l : List α) {t t' : Tx}, Shadow k t t' → Shadow k (l.foldl f t) (l.foldl f t')
   | [], _, _, h => h
   | a :: l, _, _, h => shadow_foldl f hf l (hf _ _ a h)
 
 /-- a function with a result: if it respects `Shadow`, it respects `Sim` -/
 theorem sim_of_shadow2 {α : Type} (f : Tx → Tx × α)
-    (hf : ∀ t t', Shadow t t' → Shadow (f t).1 (f t').1 ∧ (f t').2 = (f t).2) {t t' : Tx} (h : Sim t t') :
-    Sim (f t).1 (f t').1 ∧ (f t').2 = (f t).2 := by
-  have h1 : Shadow t ({ bus := shade t.bus, out := t.out } : Tx) := ⟨rfl, rfl⟩
-  have h2 : Shadow t' ({ bus := shade t.bus, out := t.out } : Tx) := ⟨h.1.symm, h.2.symm⟩
+    (hf : ∀ t t', Shadow k t t' → Shadow k (f t).1 (f t').1 ∧ (f t').2 = (f t).2) {t t' : Tx} (h : Sim k t t') :
+    Sim k (f t).1 (f t').1 ∧ (f t').2 = (f t).2 := by
+  have h1 : Shadow k t ({ bus := shade k t.bus, out := t.out } : Tx) := ⟨rfl, rfl⟩
+  have h2 : Shadow k t' ({ bus := shade k t.bus, out := t.out } : Tx) := ⟨h.1.symm, h.2.symm⟩
   have r1 := hf _ _ h1
   have r2 := hf _ _ h2
   exact ⟨⟨by rw [← r2.1.1, ← r1.1.1], by rw [← r2.1.2, ← r1.1.2]⟩, by rw [← r2.2, ← r1.2]⟩
 
-theorem pending_shade (b : Bus) : (shade b).pending = b.pending := rfl
-theorem services_shade (b : Bus) : (shade b).services = b.services := rfl
-theorem limits_shade (b : Bus) : (shade b).limits = b.limits := rfl
+theorem pending_shade (b : Bus) : (shade k b).pending = b.pending := rfl
+theorem services_shade (b : Bus) : (shade k b).services = b.services := rfl
+theorem limits_shade (b : Bus) : (shade k b).limits = b.limits := rfl
 
-theorem nameOf_sim {b b' : Bus} (h : shade b' = shade b) (c : ConnId) : b'.nameOf c = b.nameOf c := by
+theorem nameOf_sim {b b' : Bus} (h : shade k b' = shade k b) (c : ConnId) : b'.nameOf c = b.nameOf c := by
   rw [← nameOf_shade b', ← nameOf_shade b, h]
 
-theorem senderNameOf_sim {b b' : Bus} (h : shade b' = shade b) (c : ConnId) : senderNameOf b' c = senderNameOf b c := by
+theorem senderNameOf_sim {b b' : Bus} (h : shade k b' = shade k b) (c : ConnId) : senderNameOf b' c = senderNameOf b c := by
   unfold senderNameOf; rw [nameOf_sim h]
 
-theorem pending_sim {b b' : Bus} (h : shade b' = shade b) : b'.pending = b.pending := by
+theorem pending_sim {b b' : Bus} (h : shade k b' = shade k b) : b'.pending = b.pending := by
   have := congrArg Bus.pending h
   exact this
 
 /-! ### the Sim-level versions of what follows a driver method -/
 
-theorem sim_dispatchMatches {t t' : Tx} (h : Sim t t') (s a : Option ConnId) (m : Msg) :
-    Sim (dispatchMatches t s a m).1 (dispatchMatches t' s a m).1 ∧ (dispatchMatches t' s a m).2 = (dispatchMatches t s a m).2 :=
+theorem sim_dispatchMatches {t t' : Tx} (h : Sim k t t') (s a : Option ConnId) (m : Msg) :
+    Sim k (dispatchMatches t s a m).1 (dispatchMatches t' s a m).1 ∧ (dispatchMatches t' s a m).2 = (dispatchMatches t s a m).2 :=
   sim_of_shadow2 (fun t => dispatchMatches t s a m) (fun _ _ h => shadow_dispatchMatches h s a m) h
 
-theorem sim_sendError {t t' : Tx} (h : Sim t t') (c : ConnId) (m : Msg) (e : Err) :
-    Sim (sendError t c m e) (sendError t' c m e) :=
+theorem sim_sendError {t t' : Tx} (h : Sim k t t') (c : ConnId) (m : Msg) (e : Err) :
+    Sim k (sendError t c m e) (sendError t' c m e) :=
   sim_of_shadow (fun t => sendError t c m e) (fun _ _ h => shadow_sendFromDriver h c _) h
 
-theorem sim_finish {t t' : Tx} (h : Sim t t') (e : Option Err) (c : ConnId) (m : Msg) :
-    Sim (finish (t, e) c m) (finish (t', e) c m) := by
+theorem sim_finish {t t' : Tx} (h : Sim k t t') (e : Option Err) (c : ConnId) (m : Msg) :
+    Sim k (finish (t, e) c m) (finish (t', e) c m) := by
   cases e with
   | none => exact h
   | some e => exact sim_sendError h c m e
 
 /-! ### pending replies of a vanished connection -/
 
-theorem shadow_noReplyTo {t t' : Tx} (h : Shadow t t') (c : ConnId) (p : Pending) :
-    Shadow (noReplyTo c t p) (noReplyTo c t' p) := by
+theorem shadow_noReplyTo {t t' : Tx} (h : Shadow k t t') (c : ConnId) (p : Pending) :
+    Shadow k (noReplyTo c t p) (noReplyTo c t' p) := by
   unfold noReplyTo
   split
   · exact shadow_sendFromDriver h _ _
   · exact h
 
-theorem shadow_dropPending {t t' : Tx} (h : Shadow t t') (c : ConnId) : Shadow (dropPending t c) (dropPending t' c) := by
+theorem shadow_dropPending {t t' : Tx} (h : Shadow k t t') (c : ConnId) : Shadow k (dropPending t c) (dropPending t' c) := by
   have hp : t'.bus.pending = t.bus.pending := by rw [h.1]; rfl
   unfold dropPending
   rw [hp]
   exact shadow_foldl (noReplyTo c) (fun _ _ p h => shadow_noReplyTo h c p) _ (h.setPending _)
 
-theorem sim_dropPending {t t' : Tx} (h : Sim t t') (c : ConnId) : Sim (dropPending t c) (dropPending t' c) :=
+theorem sim_dropPending {t t' : Tx} (h : Sim k t t') (c : ConnId) : Sim k (dropPending t c) (dropPending t' c) :=
   sim_of_shadow (fun t => dropPending t c) (fun _ _ h => shadow_dropPending h c) h
 
 /-- nothing in the list involves `d` -/
@@ -135,56 +137,54 @@ theorem sweep_fold (c : ConnId) : ∀ (l : List Conn) (t : Tx), (∀ x ∈ l, x.
 
 /-! ### Hello -/
 
-theorem nCompleted_shade (b : Bus) : nCompleted (shade b) = nCompleted b := by
+theorem nCompleted_shade (b : Bus) : nCompleted (shade k b) = nCompleted b := by
   unfold nCompleted shade
   exact filter_map_length (fun x => by rw [neutral_name])
 
-theorem nCompletedFor_shade (b : Bus) (uid : Nat) : nCompletedFor (shade b) uid = nCompletedFor b uid := by
+theorem nCompletedFor_shade (b : Bus) (uid : Nat) : nCompletedFor (shade k b) uid = nCompletedFor b uid := by
   unfold nCompletedFor shade
   exact filter_map_length (fun x => by rw [neutral_name, neutral_uid])
 
-theorem uidOf_shade (b : Bus) (c : ConnId) : uidOf (shade b) c = uidOf b c := by
+theorem uidOf_shade (b : Bus) (c : ConnId) : uidOf (shade k b) c = uidOf b c := by
   unfold uidOf; rw [conn?_shade]
   cases b.conn? c with
   | none => rfl
   | some x => simp [neutral_uid]
 
-theorem isRoot_shade (b : Bus) (c : ConnId) : isRoot (shade b) c = isRoot b c := by
+theorem isRoot_shade (b : Bus) (c : ConnId) : isRoot (shade k b) c = isRoot b c := by
   unfold isRoot; rw [conn?_shade]
   cases b.conn? c with
   | none => rfl
   | some x => simp [neutral_uid]
 
-theorem bump_shade (b : Bus) : bump (shade b) = (shade (bump b).1, (bump b).2) := rfl
+theorem bump_shade (b : Bus) : bump (shade k b) = (shade k (bump b).1, (bump b).2) := rfl
 
-theorem mintAux_shade : ∀ (f : Nat) (b : Bus), mintAux f (shade b) = (shade (mintAux f b).1, (mintAux f b).2)
+theorem mintAux_shade : ∀ (f : Nat) (b : Bus), mintAux f (shade k b) = (shade k (mintAux f b).1, (mintAux f b).2)
   | 0, b => rfl
   | f + 1, b => by
-    show (if ((shade (bump b).1).service? (bump b).2).isNone then (shade (bump b).1, (bump b).2) else mintAux f (shade (bump b).1)) =
-      (shade (if ((bump b).1.service? (bump b).2).isNone then bump b else mintAux f (bump b).1).1,
+    show (if ((shade k (bump b).1).service? (bump b).2).isNone then (shade k (bump b).1, (bump b).2) else mintAux f (shade k (bump b).1)) =
+      (shade k (if ((bump b).1.service? (bump b).2).isNone then bump b else mintAux f (bump b).1).1,
        (if ((bump b).1.service? (bump b).2).isNone then bump b else mintAux f (bump b).1).2)
-    have : (shade (bump b).1).service? (bump b).2 = (bump b).1.service? (bump b).2 := rfl
+    have : (shade k (bump b).1).service? (bump b).2 = (bump b).1.service? (bump b).2 := rfl
     rw [this]
     by_cases h : (((bump b).1.service? (bump b).2).isNone) = true
     · simp only [h, if_true]
     · simp only [h]
       exact mintAux_shade f _
 
-theorem mint_shade (b : Bus) : mint (shade b) = (shade (mint b).1, (mint b).2) := mintAux_shade _ b
+theorem mint_shade (b : Bus) : mint (shade k b) = (shade k (mint b).1, (mint b).2) := mintAux_shade _ b
 
-theorem activate_shade (b : Bus) (c : ConnId) (nm : Bytes) : activate (shade b) c nm = shade (activate b c nm) := by
+theorem activate_shade (b : Bus) (c : ConnId) (nm : Bytes) : activate (shade k b) c nm = shade k (activate b c nm) := by
   unfold activate
-  have hb : Blind (fun x : Conn => { x with name := some nm, policy := b.policy.clientRules x.uid x.gids false }) := by
-    intro x
-    unfold neutral
-    by_cases h : x.monitor = true <;> simp [h]
+  have hb : Blind k (fun x : Conn => { x with name := some nm, policy := b.policy.clientRules x.uid x.gids false }) := by
+    exact blind_of_fields _ (fun _ => rfl) (fun _ => rfl) (fun _ => rfl)
   have := updConn_shade b c _ hb
-  show ({ (shade b).updConn c (fun x : Conn => { x with name := some nm, policy := b.policy.clientRules x.uid x.gids false }) with
+  show ({ (shade k b).updConn c (fun x : Conn => { x with name := some nm, policy := b.policy.clientRules x.uid x.gids false }) with
           minted := nm :: b.minted } : Bus) = _
   rw [this]
   rfl
 
-theorem shadow_helloOk {t t' : Tx} (h : Shadow t t') (c : ConnId) (m : Msg) : Shadow (helloOk t c m) (helloOk t' c m) := by
+theorem shadow_helloOk {t t' : Tx} (h : Shadow k t t') (c : ConnId) (m : Msg) : Shadow k (helloOk t c m) (helloOk t' c m) := by
   unfold helloOk
   rw [h.1, mint_shade]
   dsimp only
@@ -192,8 +192,8 @@ theorem shadow_helloOk {t t' : Tx} (h : Shadow t t') (c : ConnId) (m : Msg) : Sh
   apply shadow_reply
   exact ⟨activate_shade _ _ _, h.2⟩
 
-theorem shadow_hello {t t' : Tx} (h : Shadow t t') (c : ConnId) (m : Msg) :
-    Shadow (hello t c m).1 (hello t' c m).1 ∧ (hello t' c m).2 = (hello t c m).2 := by
+theorem shadow_hello {t t' : Tx} (h : Shadow k t t') (c : ConnId) (m : Msg) :
+    Shadow k (hello t c m).1 (hello t' c m).1 ∧ (hello t' c m).2 = (hello t c m).2 := by
   unfold hello
   rw [h.1, isActive_shade, nCompleted_shade, nCompletedFor_shade, uidOf_shade, limits_shade]
   cases h1 : t.bus.isActive c with
@@ -210,34 +210,84 @@ theorem shadow_hello {t t' : Tx} (h : Shadow t t') (c : ConnId) (m : Msg) :
 
 /-! ### the driver's methods -/
 
-theorem conn?_shade_actor {b : Bus} {c : ConnId} (ha : Actor b c) : (shade b).conn? c = b.conn? c := by
+theorem conn?_shade_self (b : Bus) (c : ConnId) : (shade (some c) b).conn? c = b.conn? c := by
   rw [conn?_shade]
   cases h : b.conn? c with
   | none => rfl
   | some x =>
-    have hx : x ∈ b.conns := List.mem_of_find?_eq_some h
     have hid : x.id = c := by simpa using List.find?_some h
-    simp [neutral_of_not_monitor (ha x hx hid)]
+    simp [neutral_self hid]
 
-theorem nRules_shade_actor {b : Bus} {c : ConnId} (ha : Actor b c) : nRules (shade b) c = nRules b c := by
-  unfold nRules; rw [conn?_shade_actor ha]
+theorem nRules_shade_self (b : Bus) (c : ConnId) : nRules (shade (some c) b) c = nRules b c := by
+  unfold nRules; rw [conn?_shade_self]
 
-theorem rulesOfConn_shade_actor {b : Bus} {c : ConnId} (ha : Actor b c) : rulesOfConn (shade b) c = rulesOfConn b c := by
-  unfold rulesOfConn; rw [conn?_shade_actor ha]
+theorem rulesOfConn_shade_self (b : Bus) (c : ConnId) : rulesOfConn (shade (some c) b) c = rulesOfConn b c := by
+  unfold rulesOfConn; rw [conn?_shade_self]
 
-theorem service?_shade (b : Bus) (n : Bytes) : (shade b).service? n = b.service? n := rfl
+theorem updConn_shade_self (b : Bus) (c : ConnId) (g : Conn → Conn) (hid : ∀ x, (g x).id = x.id) :
+    (shade (some c) b).updConn c g = shade (some c) (b.updConn c g) := by
+  apply updConn_shade_at
+  intro x _ hx
+  rw [neutral_self hx, neutral_self ((hid x).trans hx)]
 
-theorem shadow_opaque_fold {t t' : Tx} (h : Shadow t t') (ser : Nat) : ∀ (l l' : List ConnId),
-    Shadow (l.foldl (fun (t : Tx) r => { t with mon := t.mon ++ [Out.opaque r ser] }) t)
+theorem updRules_shade_self (b : Bus) (c : ConnId) (g : List MatchRule → List MatchRule) :
+    (shade (some c) b).updRules c g = shade (some c) (b.updRules c g) :=
+  updConn_shade_self b c _ (fun _ => rfl)
+
+/-- while the actor is no monitor, exempting it changes nothing -/
+theorem shade_some_of_actor {b : Bus} {c : ConnId} (ha : Actor b c) : shade (some c) b = shade none b := by
+  unfold shade
+  congr 1
+  apply List.map_congr_left
+  intro x hx
+  by_cases hid : x.id = c
+  · rw [neutral_self hid, neutral_of_not_monitor (ha x hx hid)]
+  · cases hs : shaded none x with
+    | true =>
+      have : shaded (some c) x = true := by
+        unfold shaded at hs ⊢
+        simp only [Bool.and_eq_true, bne_iff_ne, ne_eq] at hs ⊢
+        exact ⟨hs.1, by simpa using hid⟩
+      rw [neutral_of_shaded hs, neutral_of_shaded this]
+    | false =>
+      have : shaded (some c) x = false := by
+        unfold shaded at hs ⊢
+        simp only [Bool.and_eq_false_iff] at hs ⊢
+        rcases hs with hs | hs
+        · exact Or.inl hs
+        · simp at hs
+      rw [neutral_of_not_shaded hs, neutral_of_not_shaded this]
+
+/-- shading everybody after shading everybody but one -/
+theorem shade_none_shade (b : Bus) : shade none (shade k b) = shade none b := by
+  unfold shade
+  simp only [List.map_map]
+  congr 1
+  apply List.map_congr_left
+  intro x _
+  simp only [Function.comp]
+  cases hs : shaded k x with
+  | false => rw [neutral_of_not_shaded hs]
+  | true =>
+    have hm : x.monitor = true := by unfold shaded at hs; simp only [Bool.and_eq_true] at hs; exact hs.1
+    have h0 : shaded none x = true := by unfold shaded; simp [hm]
+    rw [neutral_of_shaded hs, neutral_of_shaded h0]
+    apply neutral_of_not_shaded
+    unfold shaded; rfl
+
+theorem service?_shade (b : Bus) (n : Bytes) : (shade k b).service? n = b.service? n := rfl
+
+theorem shadow_opaque_fold {t t' : Tx} (h : Shadow k t t') (ser : Nat) : ∀ (l l' : List ConnId),
+    Shadow k (l.foldl (fun (t : Tx) r => { t with mon := t.mon ++ [Out.opaque r ser] }) t)
       (l'.foldl (fun (t : Tx) r => { t with mon := t.mon ++ [Out.opaque r ser] }) t') := by
   intro l l'
   have e1 := opaque_fold_frame l ser t
   have e2 := opaque_fold_frame l' ser t'
   exact ⟨by rw [e1.1, e2.1]; exact h.1, by rw [e1.2, e2.2]; exact h.2⟩
 
-theorem shadow_runMethod {t t' : Tx} (h : Shadow t t') (c : ConnId) (ha : Actor t.bus c) (m : Msg) (w : Method)
+theorem shadow_runMethod_ne {t t' : Tx} (c : ConnId) (h : Shadow (some c) t t') (m : Msg) (w : Method)
     (hw : w ≠ .becomeMonitor) :
-    Shadow (runMethod t c m w).1 (runMethod t' c m w).1 ∧ (runMethod t' c m w).2 = (runMethod t c m w).2 := by
+    Shadow (some c) (runMethod t c m w).1 (runMethod t' c m w).1 ∧ (runMethod t' c m w).2 = (runMethod t c m w).2 := by
   cases w with
   | hello => exact shadow_hello h c m
   | requestName =>
@@ -306,7 +356,7 @@ theorem shadow_runMethod {t t' : Tx} (h : Shadow t t') (c : ConnId) (ha : Actor 
   | ping => exact ⟨shadow_reply h _ _ _ _, rfl⟩
   | addMatch =>
     simp only [runMethod]
-    rw [h.1, nRules_shade_actor ha, limits_shade, isRoot_shade]
+    rw [h.1, nRules_shade_self, limits_shade, isRoot_shade]
     by_cases h1 : nRules t.bus c ≥ t.bus.limits.maxRules
     · simp only [h1, if_true]; exact ⟨h, by first | trivial | rfl⟩
     simp only [h1, if_false]
@@ -317,12 +367,12 @@ theorem shadow_runMethod {t t' : Tx} (h : Shadow t t') (c : ConnId) (ha : Actor 
       · simp only [h2, if_true]; exact ⟨h, by first | trivial | rfl⟩
       · simp only [h2]
         refine ⟨shadow_reply ?_ _ _ _ _, by first | trivial | rfl⟩
-        exact ⟨updRules_shade t.bus c (· ++ [r]) ha, h.2⟩
+        exact ⟨updRules_shade_self t.bus c (· ++ [r]), h.2⟩
     | tooLong => exact ⟨h, by first | trivial | rfl⟩
     | invalid => exact ⟨h, by first | trivial | rfl⟩
   | removeMatch =>
     simp only [runMethod]
-    rw [h.1, rulesOfConn_shade_actor ha]
+    rw [h.1, rulesOfConn_shade_self]
     cases parseRule (arg0 m) with
     | ok r =>
       dsimp only
@@ -331,9 +381,9 @@ theorem shadow_runMethod {t t' : Tx} (h : Shadow t t') (c : ConnId) (ha : Actor 
         dsimp only
         have hr := shadow_reply h c m [] []
         refine ⟨⟨?_, hr.2⟩, by first | trivial | rfl⟩
-        show (reply t' c m [] []).bus.updRules c (fun _ => rs') = shade ((reply t c m [] []).bus.updRules c (fun _ => rs'))
+        show (reply t' c m [] []).bus.updRules c (fun _ => rs') = shade (some c) ((reply t c m [] []).bus.updRules c (fun _ => rs'))
         rw [hr.1]
-        exact updRules_shade _ c (fun _ => rs') (by rw [reply_bus]; exact ha)
+        exact updRules_shade_self _ c (fun _ => rs')
       | none => exact ⟨shadow_reply h _ _ _ _, by first | trivial | rfl⟩
     | tooLong => exact ⟨h, by first | trivial | rfl⟩
     | invalid => exact ⟨h, by first | trivial | rfl⟩
@@ -350,5 +400,401 @@ theorem shadow_runMethod {t t' : Tx} (h : Shadow t t') (c : ConnId) (ha : Actor 
     cases e with
     | some e => exact ⟨(hf.setPending p).captureError _ _ _, by first | trivial | rfl⟩
     | none => exact ⟨(hf.setPending p).emit _, by first | trivial | rfl⟩
+
+/-! ### BecomeMonitor, with the caller exempt from shading -/
+
+theorem gcRules_shade (b : Bus) (x : Conn) : gcRules (shade k b) x = shade k (gcRules b x) := by
+  unfold gcRules
+  cases h1 : (x.rules.isEmpty && x.monitorRules.isEmpty) with
+  | true => simp only [if_true]
+  | false =>
+  simp only [Bool.false_eq_true, if_false]
+  cases x.name with
+  | none => rfl
+  | some nm =>
+    dsimp only
+    unfold shade
+    simp only [List.map_map]
+    congr 1
+    apply List.map_congr_left
+    intro y _
+    simp only [Function.comp, neutral_id]
+    cases hy : (y.id == x.id) with
+    | true => simp only [if_true]
+    | false =>
+      simp only [Bool.false_eq_true, if_false]
+      cases hs : shaded k y with
+      | true =>
+        have hs' : shaded k ({ y with rules := y.rules.filter fun r => !(r.sender == some nm || r.dest == some nm) } : Conn) = true := hs
+        rw [neutral_of_shaded hs, neutral_of_shaded hs']
+        rfl
+      | false =>
+        have hs' : shaded k ({ y with rules := y.rules.filter fun r => !(r.sender == some nm || r.dest == some nm) } : Conn) = false := hs
+        rw [neutral_of_not_shaded hs, neutral_of_not_shaded hs']
+
+theorem installMonitorRules_shade_self (c : ConnId) (rules : List MatchRule) (b : Bus) :
+    installMonitorRules c rules (shade (some c) b) = shade (some c) (installMonitorRules c rules b) :=
+  updConn_shade_self b c _ (fun _ => rfl)
+
+theorem joinMonitors_shade_self (c : ConnId) (x : Conn) (rules : List MatchRule) (b : Bus) :
+    joinMonitors c x rules (shade (some c) b) = shade (some c) (joinMonitors c x rules b) := by
+  unfold joinMonitors
+  rw [gcRules_shade]
+  exact updConn_shade_self _ c _ (fun _ => rfl)
+
+theorem shadow_releaseAll {t t' : Tx} (h : Shadow k t t') (c : ConnId) (names : List Bytes) :
+    Shadow k (releaseAll t c names) (releaseAll t' c names) :=
+  shadow_foldl (fun t n => removeOwner t n c) (fun _ _ n h => shadow_removeOwner h n c) names h
+
+theorem shadow_beMonitor {t t' : Tx} (c : ConnId) (h : Shadow (some c) t t') (rules : List MatchRule) :
+    Shadow (some c) (beMonitor t c rules) (beMonitor t' c rules) := by
+  unfold beMonitor
+  rw [h.1, conn?_shade_self]
+  cases t.bus.conn? c with
+  | none => exact h
+  | some x =>
+    dsimp only
+    have h1 : Shadow (some c) (t.mapBus (installMonitorRules c rules)) (t'.mapBus (installMonitorRules c rules)) :=
+      ⟨by show installMonitorRules c rules t'.bus = _; rw [h.1]; exact installMonitorRules_shade_self c rules t.bus, h.2⟩
+    have h2 := shadow_releaseAll h1 c x.owned
+    exact ⟨by show joinMonitors c x rules _ = _; rw [h2.1]; exact joinMonitors_shade_self c x rules _, h2.2⟩
+
+theorem shadow_runMethod {t t' : Tx} (c : ConnId) (h : Shadow (some c) t t') (m : Msg) (w : Method) :
+    Shadow (some c) (runMethod t c m w).1 (runMethod t' c m w).1 ∧ (runMethod t' c m w).2 = (runMethod t c m w).2 := by
+  by_cases hw : w = .becomeMonitor
+  · subst hw
+    simp only [runMethod]
+    by_cases h1 : (arg1Nat m != 0) = true
+    · simp only [h1, if_true]; exact ⟨h, trivial⟩
+    simp only [h1]
+    cases parseMonitorRules (monitorTexts m) with
+    | error e => exact ⟨h, by first | trivial | rfl⟩
+    | ok rules => exact ⟨shadow_beMonitor c (shadow_reply h c m [] []) rules, by first | trivial | rfl⟩
+  · exact shadow_runMethod_ne c h m w hw
+
+theorem shadow_driverHandle (tbl : List IfaceRow) {t t' : Tx} (c : ConnId) (h : Shadow (some c) t t') (m : Msg) :
+    Shadow (some c) (driverHandle tbl t c m).1 (driverHandle tbl t' c m).1 ∧ (driverHandle tbl t' c m).2 = (driverHandle tbl t c m).2 := by
+  unfold driverHandle
+  rw [h.1, isRoot_shade]
+  by_cases h1 : (m.mtype != 1) = true
+  · simp only [h1, if_true]; exact ⟨h, by first | trivial | rfl⟩
+  simp only [h1]
+  cases findHandler tbl (m.path == some DBUS_PATH) m.iface (m.member.getD []) with
+  | noInterface => exact ⟨h, by first | trivial | rfl⟩
+  | noMethod => exact ⟨h, by first | trivial | rfl⟩
+  | handler i row =>
+    dsimp only
+    by_cases h2 : (row.privileged && !isRoot t.bus c) = true
+    · simp only [h2, if_true]; exact ⟨h, by first | trivial | rfl⟩
+    simp only [h2]
+    by_cases h3 : (!(m.path == some DBUS_PATH || row.anyPath)) = true
+    · simp only [h3, if_true]; exact ⟨h, by first | trivial | rfl⟩
+    simp only [h3]
+    by_cases h4 : (bodySig m != row.inSig) = true
+    · simp only [h4, if_true]; exact ⟨h, by first | trivial | rfl⟩
+    simp only [h4]
+    exact shadow_runMethod c h m _
+
+theorem shadow_toDriverCore (tbl : List IfaceRow) {t t' : Tx} (c : ConnId) (h : Shadow (some c) t t') (m : Msg) :
+    Shadow (some c) (toDriverCore tbl t c m).1 (toDriverCore tbl t' c m).1 ∧ (toDriverCore tbl t' c m).2 = (toDriverCore tbl t c m).2 := by
+  unfold toDriverCore
+  rw [h.1, checkPolicy_shade]
+  rcases checkPolicy t.bus (some c) none none m with ⟨p, e⟩
+  dsimp only
+  cases e with
+  | some e => exact ⟨h.setPending p, rfl⟩
+  | none =>
+    dsimp only
+    have hd := shadow_driverHandle tbl c (h.setPending p) m
+    rcases hr : driverHandle tbl (t.setPending p) c m with ⟨t1, e1⟩
+    rcases hr' : driverHandle tbl (t'.setPending p) c m with ⟨t1', e1'⟩
+    rw [hr, hr'] at hd
+    obtain ⟨hs, he⟩ := hd
+    dsimp only at hs he
+    subst he
+    cases e1' with
+    | some e => exact ⟨hs, rfl⟩
+    | none =>
+      dsimp only
+      rw [hs.1, senderNameOf_shade]
+      exact shadow_dispatchMatches hs (some c) none (m.setSender (senderNameOf t1.bus c))
+
+theorem shadow_toDriver (tbl : List IfaceRow) {t t' : Tx} (c : ConnId) (h : Shadow (some c) t t') (m : Msg) :
+    Shadow (some c) (toDriver tbl t c m).1 (toDriver tbl t' c m).1 ∧ (toDriver tbl t' c m).2 = (toDriver tbl t c m).2 := by
+  have hh : Shadow (some c) ({ t with mon := [] } : Tx) ({ t' with mon := [] } : Tx) := h
+  have := shadow_toDriverCore tbl c hh m
+  exact ⟨⟨this.1.1, this.1.2⟩, this.2⟩
+
+/-! ### the sweep at the end of a dispatch -/
+
+/-- every monitor but (possibly) `c` has no pending reply to its name -/
+def QuietX (c : ConnId) (b : Bus) : Prop := ∀ x ∈ b.conns, x.monitor = true → x.id ≠ c → QuietIn b.pending x.id
+
+theorem any_monitor_self (c : ConnId) : ∀ (l : List Conn),
+    ((l.map (neutral (some c))).filter (·.monitor)).any (·.id == c) = (l.filter (·.monitor)).any (·.id == c)
+  | [] => rfl
+  | x :: l => by
+    have ih := any_monitor_self c l
+    simp only [List.map_cons, List.filter_cons]
+    cases hs : shaded (some c) x with
+    | true =>
+      have hm : x.monitor = true := by unfold shaded at hs; simp only [Bool.and_eq_true] at hs; exact hs.1
+      have hne : (x.id == c) = false := by
+        unfold shaded at hs; simp only [Bool.and_eq_true, bne_iff_ne, ne_eq, Option.some.injEq] at hs
+        simpa using hs.2
+      rw [neutral_of_shaded hs]
+      simp only [hm, if_true, Bool.false_eq_true, if_false, List.any_cons, hne, Bool.false_or]
+      exact ih
+    | false =>
+      rw [neutral_of_not_shaded hs]
+      split
+      · simp only [List.any_cons, ih]
+      · exact ih
+
+theorem shadow_sweep {T T' : Tx} (c : ConnId) (h : Shadow (some c) T T') (hq : QuietX c T.bus) :
+    Shadow (some c) (sweepMonitors T) (sweepMonitors T') := by
+  unfold sweepMonitors
+  rw [sweep_fold c (T.bus.conns.filter (·.monitor)) T
+    (fun x hx hne => hq x (List.mem_filter.mp hx).1 (List.mem_filter.mp hx).2 hne)]
+  have hq' : ∀ x ∈ T'.bus.conns.filter (·.monitor), x.id ≠ c → QuietIn T'.bus.pending x.id := by
+    intro x hx hne
+    exfalso
+    obtain ⟨hx1, hx2⟩ := List.mem_filter.mp hx
+    rw [h.1] at hx1
+    unfold shade at hx1
+    simp only [List.mem_map] at hx1
+    obtain ⟨y, _, rfl⟩ := hx1
+    cases hs : shaded (some c) y with
+    | true => rw [neutral_of_shaded hs] at hx2; cases hx2
+    | false =>
+      rw [neutral_of_not_shaded hs] at hx2 hne
+      unfold shaded at hs
+      simp only [hx2, Bool.true_and, bne_eq_false_iff_eq, Option.some.injEq] at hs
+      exact hne hs
+  rw [sweep_fold c (T'.bus.conns.filter (·.monitor)) T' hq']
+  have hany : (T'.bus.conns.filter (·.monitor)).any (·.id == c) = (T.bus.conns.filter (·.monitor)).any (·.id == c) := by
+    rw [h.1]; exact any_monitor_self c T.bus.conns
+  rw [hany]
+  split
+  · exact shadow_dropPending h c
+  · exact h
+
+/-! ### a connection goes away -/
+
+theorem gcRules_congr (b : Bus) {x x' : Conn} (h1 : x'.rules.isEmpty = x.rules.isEmpty) (h2 : x'.monitorRules = x.monitorRules)
+    (h3 : x'.name = x.name) (h4 : x'.id = x.id) : gcRules b x' = gcRules b x := by
+  unfold gcRules
+  rw [h1, h2, h3, h4]
+
+theorem clearRules_shade (b : Bus) (c : ConnId) : clearRules (shade k b) c = shade k (clearRules b c) :=
+  updConn_shade b c _ (blind_of_fields _ (fun _ => rfl) (fun _ => rfl) (fun _ => rfl))
+
+theorem neutral_rules_isEmpty {x : Conn} (h : x.monitor = true → x.rules = []) : (neutral k x).rules.isEmpty = x.rules.isEmpty := by
+  cases hs : shaded k x with
+  | true =>
+    have hm : x.monitor = true := by unfold shaded at hs; simp only [Bool.and_eq_true] at hs; exact hs.1
+    rw [neutral_of_shaded hs, h hm]
+  | false => rw [neutral_of_not_shaded hs]
+
+theorem shadow_disconnectTx (b : Bus) (c : ConnId) (x : Conn) (hx : x.monitor = true → x.rules = []) :
+    Shadow k (disconnectTx b c x) (disconnectTx (shade k b) c (neutral k x)) := by
+  unfold disconnectTx
+  rw [neutral_owned]
+  apply shadow_dropPending
+  have h0 : Shadow k ({ bus := clearRules (gcRules b x) c } : Tx) ({ bus := clearRules (gcRules (shade k b) (neutral k x)) c } : Tx) := by
+    refine ⟨?_, rfl⟩
+    show clearRules (gcRules (shade k b) (neutral k x)) c = shade k (clearRules (gcRules b x) c)
+    rw [gcRules_congr (shade k b) (neutral_rules_isEmpty hx) (neutral_monitorRules x) (neutral_name x) (neutral_id x),
+      gcRules_shade, clearRules_shade]
+  have h1 := shadow_releaseAll h0 c x.owned.reverse
+  exact ⟨by show removeConn c _ = shade k (removeConn c _); rw [h1.1]; exact removeConn_shade c _, h1.2⟩
+
+theorem shadow_disconnect (b : Bus) (hc : MonClean b) (c : ConnId) : Shadow k (disconnect b c) (disconnect (shade k b) c) := by
+  unfold disconnect
+  rw [conn?_shade]
+  cases h : b.conn? c with
+  | none => exact ⟨rfl, rfl⟩
+  | some x =>
+    have hx : x ∈ b.conns := List.mem_of_find?_eq_some h
+    have := shadow_disconnectTx (k := k) b c x (hc x hx)
+    simp only [Option.map_some]
+    exact ⟨this.1, by show List.filter _ _ = List.filter _ _; rw [this.2]⟩
+
+theorem shadow_dropConn (b : Bus) (hc : MonClean b) (c : ConnId) : Shadow k (dropConn b c) (dropConn (shade k b) c) := by
+  have := shadow_disconnect (k := k) b hc c
+  unfold dropConn
+  exact ⟨this.1, by show _ ++ _ = _ ++ _; rw [this.2]⟩
+
+/-! ### a whole dispatch, a whole step -/
+
+theorem sim_of_shadow_some {c : ConnId} {T T' : Tx} (h : Shadow (some c) T T') : Sim none T T' :=
+  ⟨by rw [h.1, shade_none_shade], h.2⟩
+
+theorem actor_of_conn {b : Bus} {c : ConnId} {x : Conn} (hids : (b.conns.map (·.id)).Nodup) (hx : b.conn? c = some x)
+    (hm : x.monitor = false) : Actor b c := by
+  intro y hy hid
+  have hxm : x ∈ b.conns := List.mem_of_find?_eq_some hx
+  have hxid : x.id = c := by simpa using List.find?_some hx
+  have : y = x := inj_of_nodup_map' _ hids hy hxm (hid.trans hxid.symm)
+  rw [this]; exact hm
+
+/-- a message from a connection that is no monitor: the same dispatch on the bus without monitors -/
+theorem dispatch_sim_actor (tbl : List IfaceRow) (b : Bus) (hids : (b.conns.map (·.id)).Nodup) (hcl : MonClean b)
+    (c : ConnId) (x : Conn) (m0 : Msg) (hx : b.conn? c = some x) (hmon : x.monitor = false)
+    (hsw : ∀ m, QuietX c (finish (toDriver tbl { bus := b } c m) c m).bus) :
+    Sim none (dispatch tbl b c m0) (dispatch tbl (shade none b) c m0) := by
+  have hact := actor_of_conn hids hx hmon
+  have hx' : (shade none b).conn? c = some x := by rw [conn?_shade, hx]; simp [neutral_of_not_monitor hmon]
+  unfold dispatch
+  rw [hx, hx']
+  dsimp only
+  by_cases h1 : ((strip m0).dest.isNone && (strip m0).iface == some PEER_IFACE) = true
+  · simp only [h1, if_true]; exact (Shadow.sim (k := none) ⟨rfl, rfl⟩)
+  simp only [h1, if_false, hmon, Bool.false_eq_true]
+  by_cases h2 : ((strip m0).dest.isNone && (strip m0).mtype != 4) = true
+  · simp only [h2, if_true]; exact (Shadow.sim (k := none) ⟨rfl, rfl⟩)
+  simp only [h2, if_false, senderNameOf_shade]
+  by_cases hd : (((strip m0).setSender (senderNameOf b c)).dest == some BUS_NAME) = true
+  · simp only [hd, if_true]
+    have h0 : Shadow (some c) ({ bus := b } : Tx) ({ bus := shade none b } : Tx) := ⟨(shade_some_of_actor hact).symm, rfl⟩
+    have ht := shadow_toDriver tbl c h0 ((strip m0).setSender (senderNameOf b c))
+    rcases h3 : toDriver tbl { bus := b } c ((strip m0).setSender (senderNameOf b c)) with ⟨t1, e1⟩
+    rcases h4 : toDriver tbl { bus := shade none b } c ((strip m0).setSender (senderNameOf b c)) with ⟨t2, e2⟩
+    have hq := hsw ((strip m0).setSender (senderNameOf b c))
+    rw [h3] at hq
+    rw [h3, h4] at ht
+    obtain ⟨hs, he⟩ := ht
+    dsimp only at hs he
+    subst he
+    exact sim_of_shadow_some (shadow_sweep c (shadow_finish hs e2 c _) hq)
+  · simp only [hd, Bool.false_eq_true, if_false]
+    cases hn : x.name.isNone with
+    | true =>
+      simp only [if_true]
+      have := shadow_dropConn (k := none) b hcl c
+      refine ⟨?_, this.2⟩
+      show shade none (dropConn (shade none b) c).bus = shade none (dropConn b c).bus
+      rw [this.1, shade_idem]
+    | false =>
+      simp only [Bool.false_eq_true, if_false]
+      have hr := shadow_route (k := none) (t := { bus := b }) (t' := { bus := shade none b }) ⟨rfl, rfl⟩ c ((strip m0).setSender (senderNameOf b c))
+      rcases h3 : route { bus := b } c ((strip m0).setSender (senderNameOf b c)) with ⟨t1, e1⟩
+      rcases h4 : route { bus := shade none b } c ((strip m0).setSender (senderNameOf b c)) with ⟨t2, e2⟩
+      rw [h3, h4] at hr
+      obtain ⟨hs, he⟩ := hr
+      dsimp only at hs he
+      subst he
+      exact (shadow_finish hs e2 c _).sim
+
+/-- the event as it reads on the bus without monitors: a monitor that speaks is a connection that sent something
+    unacceptable and is dropped (messages its built-in peer filter answers excepted: they never reach the bus proper) -/
+def shadowEv (b : Bus) : Ev → Ev
+  | .msg c m =>
+    match b.conn? c with
+    | some x =>
+      if x.monitor && !((strip m).dest.isNone && (strip m).iface == some PEER_IFACE) then .invalid c else .msg c m
+    | none => .msg c m
+  | e => e
+
+theorem reloadPolicy_shade (b : Bus) (p : Policy) : reloadPolicy (shade k b) p = shade k (reloadPolicy b p) := by
+  unfold reloadPolicy shade
+  simp only [List.map_map]
+  congr 1
+  apply List.map_congr_left
+  intro x _
+  simp only [Function.comp, neutral_name, neutral_uid]
+  cases hs : shaded k x with
+  | true =>
+    rw [neutral_of_shaded hs]
+    split
+    · exact (neutral_of_shaded (x := { x with policy := p.clientRules x.uid x.gids false }) hs).symm
+    · exact (neutral_of_shaded hs).symm
+  | false =>
+    rw [neutral_of_not_shaded hs]
+    split
+    · exact (neutral_of_not_shaded (x := { x with policy := p.clientRules x.uid x.gids false }) hs).symm
+    · exact (neutral_of_not_shaded hs).symm
+
+theorem shadow_fold_noReply : ∀ (ps : List Pending) {t t' : Tx}, Shadow k t t' →
+    Shadow k (ps.foldl (fun t p => sendError t p.caller (fakeCall p.serial) .noReply) t)
+      (ps.foldl (fun t p => sendError t p.caller (fakeCall p.serial) .noReply) t')
+  | [], _, _, h => h
+  | p :: ps, _, _, h => by
+    simp only [List.foldl_cons]
+    exact shadow_fold_noReply ps (shadow_sendFromDriver h _ _)
+
+theorem shadow_expireWhere (b : Bus) (due : Pending → Bool) : Shadow k (expireWhere b due) (expireWhere (shade k b) due) := by
+  unfold expireWhere
+  rw [pending_shade]
+  apply shadow_fold_noReply
+  exact ⟨rfl, rfl⟩
+
+theorem shadow_expireAll (b : Bus) : Shadow k (expireAll b) (expireAll (shade k b)) := by
+  unfold expireAll
+  rw [pending_shade]
+  apply shadow_fold_noReply
+  exact ⟨rfl, rfl⟩
+
+/-- **One step of the bus, with and without its monitors.** Under the invariants of `MonInv.lean` (distinct connection ids;
+    monitors hold no match rules; when a dispatch ends, no monitor but possibly its sender has a pending reply to its name)
+    the step sends the clients what the same step sends on the bus whose monitors are idle ordinary connections, and leaves
+    the same state up to shading. -/
+theorem step_sim (tbl : List IfaceRow) (b : Bus) (hids : (b.conns.map (·.id)).Nodup) (hcl : MonClean b)
+    (hsw : ∀ c m, Actor b c → QuietX c (finish (toDriver tbl { bus := b } c m) c m).bus) (ev : Ev) :
+    Sim none (step tbl b ev) (step tbl (shade none b) (shadowEv b ev)) := by
+  cases ev with
+  | connect c uid gids canFd =>
+    simp only [shadowEv, step]
+    rw [conn?_shade]
+    cases h : b.conn? c with
+    | some x => simp only [Option.map_some, Option.isSome_some, if_true]; exact Shadow.sim (k := none) ⟨rfl, rfl⟩
+    | none =>
+      simp only [Option.map_none, Option.isSome_none, Bool.false_eq_true, if_false]
+      refine Shadow.sim (k := none) ⟨?_, rfl⟩
+      show ({ shade none b with conns := (shade none b).conns ++ [_] } : Bus) = shade none { b with conns := b.conns ++ [_] }
+      unfold shade
+      simp only [List.map_append, List.map_cons, List.map_nil]
+      rw [neutral_of_not_monitor (x := { id := c, uid := uid, gids := gids, canFd := canFd }) rfl]
+  | msg c m0 =>
+    cases hx : b.conn? c with
+    | none =>
+      simp only [shadowEv, hx, step]
+      unfold dispatch
+      rw [hx, conn?_shade, hx]
+      exact Shadow.sim (k := none) ⟨rfl, rfl⟩
+    | some x =>
+      by_cases hp : ((strip m0).dest.isNone && (strip m0).iface == some PEER_IFACE) = true
+      · simp only [shadowEv, hx, hp, Bool.not_true, Bool.and_false, Bool.false_eq_true, if_false, step]
+        unfold dispatch
+        rw [hx, conn?_shade, hx]
+        simp only [Option.map_some, hp, if_true]
+        exact Shadow.sim (k := none) ⟨rfl, rfl⟩
+      · cases hm : x.monitor with
+        | true =>
+          have hp' : ((strip m0).dest.isNone && (strip m0).iface == some PEER_IFACE) = false := by simpa using hp
+          simp only [shadowEv, hx, hm, hp', Bool.not_false, Bool.and_true, if_true, step]
+          rw [conn?_shade, hx]
+          simp only [Option.map_some, Option.isNone_some, Bool.false_eq_true, if_false]
+          have hd : dispatch tbl b c m0 = dropConn b c := by
+            unfold dispatch
+            simp only [hx, hp', Bool.false_eq_true, if_false, hm, if_true]
+          rw [hd]
+          exact (shadow_dropConn b hcl c).sim
+        | false =>
+          simp only [shadowEv, hx, hm, Bool.false_and, Bool.false_eq_true, if_false, step]
+          exact dispatch_sim_actor tbl b hids hcl c x m0 hx hm (fun m => hsw c m (actor_of_conn hids hx hm))
+  | invalid c =>
+    simp only [shadowEv, step]
+    rw [conn?_shade]
+    cases h : b.conn? c with
+    | none => simp only [Option.map_none, Option.isNone_none, if_true]; exact Shadow.sim (k := none) ⟨rfl, rfl⟩
+    | some x =>
+      simp only [Option.map_some, Option.isNone_some, Bool.false_eq_true, if_false]
+      exact (shadow_dropConn b hcl c).sim
+  | close c => exact (shadow_disconnect b hcl c).sim
+  | timeout => exact (shadow_expireAll b).sim
+  | expire due => exact (shadow_expireWhere b _).sim
+  | stall c on => exact Shadow.sim (k := none) ⟨rfl, rfl⟩
+  | reload p => exact Shadow.sim (k := none) ⟨(reloadPolicy_shade b p), rfl⟩
 
 end Dbus.Proofs.Bus
